@@ -35,7 +35,7 @@ HeadersOf(file) == LET h == FirstData(file) IN [j \in 1..Len(h) |-> CleanHeader(
 InitSt == [vars |-> <<>>, stopped |-> FALSE, skip |-> FALSE, advance |-> 0, valid |-> TRUE,
            matchCount |-> 0, curMatch |-> 0, scanCount |-> 0, printed |-> <<>>, frozen |-> FALSE,
            memo |-> <<>>, cur |-> 0, built |-> FALSE, onceDone |-> {},
-           line |-> <<>>, headers |-> <<>>, limit |-> <<>>, appended |-> {}]
+           line |-> <<>>, headers |-> <<>>, limit |-> <<>>, appended |-> {}, sig |-> NoSig]
 \* The Matcher is built (and the match part validated) the first time a line reaches matches();
 \* counter.name() initialises its variable to 0 at that point (Counter.check_valid).
 RECURSIVE SetIfNone(_, _)
@@ -90,6 +90,31 @@ Step(case, S) ==
       st2 == IF fin /\ ~early THEN [c.st EXCEPT !.frozen = TRUE] ELSE c.st
   IN [st |-> st2, returned |-> returned2, unmatched |-> unmatched2, lines |-> lines2, k |-> S.k + 1,
       pc |-> IF fin \/ early THEN "done" ELSE "iter", kind |-> c.kind]
+
+\* ---- comparing a recorded _consider_line event with a specified step (RunTrace, GroupRun) -----------
+MemoOf(st) == st.memo
+\* the fields of one event, in the order they are compared
+Diff(E, ev, before) ==
+  IF ev.k # before.k THEN "k"
+  ELSE IF ev.exc # "" THEN "raised:" \o ev.exc
+  ELSE IF ev.ret # (Len(E.returned) > Len(before.returned)) THEN "returned"
+  ELSE IF ev.scan_count # E.st.scanCount THEN "scan_count"
+  ELSE IF ev.match_count # E.st.matchCount THEN "match_count"
+  ELSE IF ev.stopped # E.st.stopped THEN "stopped"
+  ELSE IF ev.advance # E.st.advance THEN "advance"
+  ELSE IF ev.valid # E.st.valid THEN "valid"
+  ELSE IF E.kind = "match" /\ ev.votes # MemoOf(E.st) THEN "votes"
+  ELSE IF ~VarsEq(ev.vars, NormVars(E.st.vars)) THEN "vars"
+  ELSE IF ev.printed # E.st.printed THEN "printed"
+  ELSE "ok"
+
+\* what the specification expected for the field that differs (for the replay file)
+Expected(E, f) ==
+  CASE f = "vars" -> NormVars(E.st.vars)
+    [] f = "votes" -> MemoOf(E.st)
+    [] f = "printed" -> E.st.printed
+    [] f = "returned" -> <<E.returned>>
+    [] OTHER -> <<E.st.scanCount, E.st.matchCount, E.st.stopped, E.st.advance, E.st.valid>>
 
 \* ---- properties over a whole behaviour are stated in MC_Run / RunTrace ------------------------------
 Increasing(s) == \A i \in 1..(Len(s) - 1) : s[i] < s[i + 1]
